@@ -24,7 +24,7 @@ ASSUMPTIONS = [
     'create obligations to complete / fail; safety (no completion without an own UPLOADED, no failure without an own FAILED, at most one outcome, '
     'subscription removed afterwards) is checked for every ordering',
 ]
-BOUNDS = {'quick': {'events': '3 (own + foreign, any reply position); 5 (own only, reply first)', 'directories': 2, 'services': 'own + one foreign sharing the directories', 'modes': 'first-upload and await-all'},
+BOUNDS = {'quick': {'events': '3 (own + foreign, any reply position); 5 (own only, reply first); 6 (own only, after UPLOAD to both directories)', 'directories': 2, 'services': 'own + one foreign sharing the directories', 'modes': 'first-upload and await-all'},
           'thorough': {'events': '4 (own + foreign, 2 directories, any reply position); 5 (own, 3 directories); 6 (own, 2 directories)'}}
 OUTSIDE = ['more than 4 mixed / 6 own events, more than 3 directories', 'authenticated services']
 
@@ -233,7 +233,8 @@ def c15_own5_3dirs(e1: int, e2: int, e3: int, e4: int, e5: int, await_all: bool,
         return _wait(evs, reply_at, await_all, 3, False)
 
 
-@cond(thorough=dict(parts=[{'e1': a, 'e2': b, 'await_all': m} for a in (0, 3) for b in range(6) for m in (False, True)], budget=600))
+@cond(quick=dict(parts=[{'e1': 0, 'e2': 3, 'await_all': m} for m in (False, True)], budget=300),
+      thorough=dict(parts=[{'e1': a, 'e2': b, 'await_all': m} for a in (0, 3) for b in range(6) for m in (False, True)], budget=600))
 def c15_own6(e1: int, e2: int, e3: int, e4: int, e5: int, e6: int, await_all: bool, fs: bool) -> str:
     """6 own events over 2 directories, reply first"""
     evs = [_decode_own(e1), _decode_own(e2)] + [_decode_own(api.pick(e, 0, 5)) for e in (e3, e4, e5, e6)]
